@@ -298,7 +298,7 @@ func regionSweep(ctx context.Context, run *Runner, fx *Fixture, rng *PRNG, prop 
 		mk := func(root byte) *Op {
 			if prop == "C01" {
 				return &Op{Kind: KAttest, Client: "client1", IP: "10.0.0.1", Addrs: []Addr{{Name: c.Path()}},
-					Atts: []AttData{{Dom: mkDomain(domAttester, 0), BBR: fill32(root), Src: &Checkpoint{v, fill32(0)}, Tgt: &Checkpoint{v, fill32(root)}}}}
+					Atts: []AttData{{Dom: mkDomain(domAttester, 0), BBR: fill32(root), Src: &Checkpoint{v, fill32(0)}, Tgt: &Checkpoint{v + 1, fill32(root)}}}}
 			}
 			return &Op{Kind: KPropose, Client: "client1", IP: "10.0.0.1", Addrs: []Addr{{Name: c.Path()}},
 				Props: []PropData{{Dom: mkDomain(domProposer, 0), Slot: v, Pidx: 1, Parent: fill32(0), State: fill32(root), Body: fill32(root)}}}
